@@ -15,6 +15,11 @@ def job(h, secs=60, jobs=1, allow=(), paths=1000000, qto=None, **p):
 
 
 for m in pkgutil.iter_modules([os.path.dirname(__file__)]):
-    mod = importlib.import_module("registry." + m.name)
+    try:
+        mod = importlib.import_module("registry." + m.name)
+    except Exception as ex:  # a broken registry file must not take the other properties down
+        import sys
+        print("registry: cannot load %s: %s" % (m.name, ex), file=sys.stderr)
+        continue
     REG.update(getattr(mod, "REG", {}))
     EXTRA.update(getattr(mod, "EXTRA", {}))
